@@ -450,6 +450,27 @@ func (l lastSegInfo) availabilityTime(ato float64) float64 {
 	return float64(endMS)/1000 - ato
 }
 
+// floorDiv returns the largest q with q*d <= n (for d > 0), also for negative n.
+func floorDiv(n, d int) int {
+	q := n / d
+	if n%d < 0 {
+		q--
+	}
+	return q
+}
+
+// splitLoops splits a time relative to a loop start into whole loops (negative before the loop) and the rest.
+func splitLoops(relTime, loopDur int) (nrLoops int, rest uint64) {
+	if loopDur <= 0 {
+		if relTime < 0 {
+			return -1, 0
+		}
+		return 0, uint64(relTime)
+	}
+	nrLoops = floorDiv(relTime, loopDur)
+	return nrLoops, uint64(relTime - nrLoops*loopDur)
+}
+
 // generateTimelineEntries generates timeline entries for the given representation.
 // If no segments are available, startNr and lsi.nr are set to -1.
 func (a *asset) generateTimelineEntries(repID string, wt wrapTimes, atoMS int) segEntries {
@@ -462,12 +483,9 @@ func (a *asset) generateTimelineEntries(repID string, wt wrapTimes, atoMS int) s
 
 	// The offset is added in milliseconds, before the conversion to the media timescale, so that
 	// only one rounding (floor) is made. Otherwise a segment can be missed by up to one tick.
-	loopDur := uint64(rep.duration())
-	relStartTime := uint64((wt.startRelMS + atoMS) * rep.MediaTimescale / 1000)
-	for loopDur > 0 && relStartTime >= loopDur { // The offset may reach into the next loop
-		wt.startWraps++
-		relStartTime -= loopDur
-	}
+	loopDur := rep.duration()
+	startWraps, relStartTime := splitLoops(floorDiv((wt.startRelMS+atoMS)*rep.MediaTimescale, 1000), loopDur)
+	wt.startWraps += startWraps // The offset may reach into another loop
 	relStartIdx := 0
 	if relStartTime < segs[0].EndTime {
 		wt.startWraps--
@@ -484,11 +502,8 @@ func (a *asset) generateTimelineEntries(repID string, wt wrapTimes, atoMS int) s
 		wt.startWraps = 0
 	}
 
-	relNowTime := uint64((wt.nowRelMS + atoMS) * rep.MediaTimescale / 1000)
-	for loopDur > 0 && relNowTime >= loopDur { // The offset may reach into the next loop
-		wt.nowWraps++
-		relNowTime -= loopDur
-	}
+	nowWraps, relNowTime := splitLoops(floorDiv((wt.nowRelMS+atoMS)*rep.MediaTimescale, 1000), loopDur)
+	wt.nowWraps += nowWraps // The offset may reach into another loop
 	relNowIdx := 0
 	if relNowTime < segs[0].EndTime {
 		wt.nowWraps--
